@@ -38,6 +38,18 @@ Theorem C24_exclusions_exact :
 Proof. exact gen_unmapped_fields. Qed.
 Print Assumptions C24_exclusions_exact.
 
+(** Unset sub-messages are INSIDE the model: XFromProto(nil) of a function that reads its message only
+    through the generated getters is XFromProto of the message with every field unset (getters answer
+    the zero value on a nil receiver) - a value, or an error (query nodes without child), never a
+    stand-in.  The entries are compared with the real functions called with nil (WNilFrom cases), and
+    C24_handlers_total below covers them ([from_safe]: no entry is a panic). *)
+Theorem C24_unset_message_is_empty_message : forall rn n t,
+  lookup n pf_tables = Some t -> t_from_nilsafe t = true ->
+  apply (gen_env rn) (CRec false false n) VNil
+  = apply (gen_env rn) (CRec false false n) (zero_rec (t_to t)).
+Proof. exact gen_nil_is_unset. Qed.
+Print Assumptions C24_unset_message_is_empty_message.
+
 (** Query trees of every node kind: QFromProto (QToProto q) = q. *)
 Theorem C24_query_roundtrip : forall rn q,
   dom_b (gen_env rn) CQTo CQFrom q = true ->
@@ -136,3 +148,24 @@ Example C24_ex_nil_opts_is_answered :
   handle (gen_env ex_rn) ok_streamer ok_streamer handler_defaults_nil_opts 0
          (VR [("Query", VQ "Q_Const" (VB true)); ("Opts", VNil)])%string = Ok VNil.
 Proof. vm_compute. reflexivity. Qed.
+
+(** unset sub-messages: IndexMetadataFromProto(nil).IndexTime is the Unix epoch (AsTime of a nil
+    timestamp), not the zero time.Time; a ChunkMatch without ContentStart gets the zero Location; a
+    Not node without child is an error; a guarded function returns nil *)
+Example C24_ex_nil_index_metadata :
+  exists fs, nil_from (gen_env ex_rn) "zoekt.IndexMetadata" = Ok (VR fs) /\
+             lookup "IndexTime" fs = Some (VTime 0 0) /\
+             lookup "IndexTime" (match zero_rec (t_from pf_zoekt_IndexMetadata) with VR z => z | _ => [] end)
+             = Some (VTime (-62135596800) 0).
+Proof. eexists. split; [vm_compute; reflexivity|]. split; vm_compute; reflexivity. Qed.
+Example C24_ex_unset_content_start :
+  let m := VR [("Content", VS [120%N]); ("ContentStart", VNil); ("FileName", VB true); ("Ranges", VL []);
+               ("SymbolInfo", VL []); ("Score", VZ 0); ("DebugScore", VS []); ("BestLineMatch", VZ 7)]%string in
+  exists fs, apply (gen_env ex_rn) (CRec false false "zoekt.ChunkMatch") m = Ok (VR fs) /\
+             lookup "ContentStart" fs = Some (VR [("ByteOffset", VZ 0); ("LineNumber", VZ 0); ("Column", VZ 0)])%string.
+Proof. eexists. split; vm_compute; reflexivity. Qed.
+Example C24_ex_nil_not_is_an_error_and_guarded_is_nil :
+  nil_from (gen_env ex_rn) "query.Not" = Err ERR_QUERY /\
+  nil_from (gen_env ex_rn) "zoekt.RepoListEntry" = Ok VNil /\
+  t_from_nilsafe pf_zoekt_IndexMetadata = true.
+Proof. repeat split; vm_compute; reflexivity. Qed.
